@@ -163,8 +163,8 @@ pub(crate) fn decompress(x: &[u8], n: usize) -> Option<Vec<i16>> {
 
     // for all elements (last round is special due to bound checks)
     for _ in 0..n - 1 {
-        // early return if
-        if index + 8 >= bitvector.len() {
+        // early return if this coefficient (at least 9 bits) cannot be followed by another bit
+        if index + 9 >= bitvector.len() {
             return None;
         }
 
